@@ -247,6 +247,23 @@ func redactCommand(cmd *orderedmap.OrderedMap[string, any], shouldEagerRedact bo
 			}
 		}
 	}
+	if shape, ok := cmd.Get("setQuerySettings"); ok {
+		if shapeMap, ok := shape.(*orderedmap.OrderedMap[string, any]); ok {
+			// the representative query of a query-settings command is a command document itself
+			redactCommand(shapeMap, shouldEagerRedact)
+			if redactNamespaces {
+				redactNamespace(shapeMap)
+			}
+		}
+	}
+	if shape, ok := cmd.Get("removeQuerySettings"); ok {
+		if shapeMap, ok := shape.(*orderedmap.OrderedMap[string, any]); ok {
+			redactCommand(shapeMap, shouldEagerRedact)
+			if redactNamespaces {
+				redactNamespace(shapeMap)
+			}
+		}
+	}
 	if pipeline, ok := cmd.Get("pipeline"); ok {
 		if pipelineArr, ok := pipeline.([]any); ok {
 			newPipeline := make([]any, len(pipelineArr))
